@@ -54,13 +54,20 @@ def run(ctx):
     while x[0] == "call":
         chain.append(x[1].split("::")[-1])
         x = M.noref(x[2][0]) if x[2] else ("none",)
-    okchain = x == ("field", selfp, "cmds") and chain.count("enumerate") == 1 and all(c in ("into_iter", "enumerate") for c in chain)
-    ctx.ob("R13.1", "iteration-order", okchain, pp.loc(nxt[0][0]), "stage iterator = %s over %s (must be self.cmds.into_iter().enumerate(), no reordering adaptor)" % (chain, M.term_str(x)))
-    idx = ("field", ("field", ("downcast", item, "Some"), "0"), "0")
+    enumerated = chain.count("enumerate") == 1
+    okchain = x == ("field", selfp, "cmds") and chain.count("enumerate") <= 1 and "into_iter" in chain and all(c in ("into_iter", "enumerate") for c in chain)
+    ctx.ob("R13.1", "iteration-order", okchain, pp.loc(nxt[0][0]), "stage iterator = %s over %s (must be self.cmds.into_iter(), possibly enumerated, no reordering adaptor)" % (chain, M.term_str(x)))
+    idx = ("field", ("field", ("downcast", item, "Some"), "0"), "0") if enumerated else ("none",)
     runner0 = ("field", ("field", ("downcast", item, "Some"), "0"), "1")
+    pos_by_len = [False]        # set below: the position may be asked of the result vector (`started.len()`), which grows by one per stage
 
     def is_idx(t):
-        return M.noref(t) == M.noref(idx)
+        t = M.noref(t)
+        if enumerated and t == M.noref(idx):
+            return True
+        if pos_by_len[0] and t[0] == "call" and t[1] == "std::vec::Vec::<T, A>::len" and len(t) > 3 and t[3] in loop:
+            return M.noref(M.strip(t[2][0])) == M.noref(T.local(pos_by_len[0]))
+        return False
 
     # result vector
     pushes = [(bb, t) for bb, t in pp.calls(loop) if M.callee_str(t["f"]) == "std::vec::Vec::<T, A>::push"]
@@ -68,6 +75,11 @@ def run(ctx):
     ctx.ob("R13.1", "result-push", len(pushes) == 1 and ret_slot is not None and ret_slot[1][0] == "local", pp.loc(pushes[0][0] if pushes else 0), "each started process is pushed to one local result vector")
     if ret_slot is None:
         return
+    if len(pushes) == 1 and ret_slot[1][0] == "local":
+        # one push on every way round the loop: the vector's length is the number of the stage being set up
+        body_entry_ = [s_ for s_ in pp.succs(nxt[0][0]) if s_ in loop]
+        if not any(nxt[0][0] in pp.reachable(s_, removed_blocks={pushes[0][0]}) for s_ in body_entry_):
+            pos_by_len[0] = ret_slot[1][1]
     if len(pushes) == 1:
         v = M.strip(T.operand(pushes[0][1]["args"][1]))
         ctx.ob("R13.1", "push=popen-result", v[0] == "call" and v[1] == "builder::exec::Exec::popen", pp.loc(pushes[0][0]), "pushed value = %s (must be the Popen just started)" % M.term_str(v)[:100])
